@@ -753,3 +753,32 @@ Proof.
       pose proof (Z.mul_succ_div_gt x u Hu). lia.
     + apply Z.div_lt_upper_bound; lia.
 Qed.
+
+(* ------------------------------------------------------------------ a server that repeats a nextLink *)
+(* _list_items_paginated / _get_folders_from_url have no guard against a nextLink that was already followed:
+   if the page served at u names u itself as the next page, the loop issues one request per unit of fuel
+   and is still not done — for EVERY fuel, i.e. the Python `while current_url:` never ends. *)
+Lemma paginate_self_loop E path u items : forall fuel w s t n0,
+  serves w n0 t [(u, page_obj items (Some u))] -> nonempty u = true -> n0 <= nreq s -> tok s = Some t ->
+  exists s', run E w (list_items_paginated E fuel (Some u) path) s = (Raise OutOfFuel, s')
+             /\ nreq s' = nreq s + fuel /\ opened s' + closed s = closed s' + opened s.
+Proof.
+  induction fuel as [|f IH]; intros w s t n0 Hs Hu Hn Ht; cbn [list_items_paginated truthy dflt]; rewrite Hu.
+  - exists s. cbn [run]. repeat split; lia.
+  - cbn [run]. erewrite get_json_ok; eauto; [|left; reflexivity].
+    cbn [page_obj o_ok]. rewrite run_bind. cbn [page_obj o_next].
+    destruct (IH w (adv s [(false, u)]) t n0 Hs Hu) as (s' & R & Hq & Hb); [rewrite nreq_adv; lia | exact Ht |].
+    rewrite R. exists s'. split; [reflexivity|]. rewrite nreq_adv in Hq. simpl in *. lia.
+Qed.
+
+Lemma folders_self_loop u items : forall E fuel w s t n0,
+  serves w n0 t [(u, page_obj items (Some u))] -> nonempty u = true -> n0 <= nreq s -> tok s = Some t ->
+  exists s', run E w (get_folders fuel (Some u)) s = (Raise OutOfFuel, s') /\ nreq s' = nreq s + fuel.
+Proof.
+  intro E. induction fuel as [|f IH]; intros w s t n0 Hs Hu Hn Ht; cbn [get_folders truthy dflt]; rewrite Hu.
+  - exists s. cbn [run]. split; [reflexivity | lia].
+  - cbn [run]. erewrite get_json_ok; eauto; [|left; reflexivity].
+    cbn [page_obj o_ok]. rewrite run_bind. cbn [page_obj o_next].
+    destruct (IH w (adv s [(false, u)]) t n0 Hs Hu) as (s' & R & Hq); [rewrite nreq_adv; lia | exact Ht |].
+    rewrite R. exists s'. split; [reflexivity|]. rewrite nreq_adv in Hq. simpl in *. lia.
+Qed.
